@@ -162,3 +162,69 @@ PROPS['C09'] = dict(
                               'signatures of write_dns and read_dns_withq', 'sim capture/feed of sendto/recvfrom'],
     assumptions=['Lmax floors (100 bytes for one hostname, 1000 otherwise) calibrated on the unchanged tree'],
 )
+
+SES_RULE = ('case = real iodined (query type NULL/PRIVATE/TXT/SRV/MX/CNAME/A, tunnel domain) + scripted sessions speaking protocol 0x00000502 '
+            '(independent implementation ref/refproto.cc; IPv4 or IPv6; lazy or immediate; downstream codec T/S/U/V/R or default; upstream '
+            'codec Base32/64/64u/128; initial fragment size) + a generated history of actions: ping (honest / stale / ahead / unrelated '
+            'acknowledgement), upstream data chunk, packet arriving on the server tun device for the session, fragment-size request, '
+            're-delivery of an earlier query, time step from {0,5,19,21,100 ms,1,3,10 s}; then a drain of honest pings. ')
+PROPS['C15'] = dict(
+    bin='c15', sources=['props/c15.cc'] + SIMSRC2, unit_objs=UNIT, images=IMGS, engine='rc',
+    quick=dict(workers=8, cases=4000, budget=40, min_nontrivial=100),
+    thorough=dict(workers=16, cases=80000, budget=1200, min_nontrivial=5000),
+    rule=SES_RULE + 'C15 mix: fragment sizes from {0,1,2,3,50,100,101,255,1200,4093..4096,65535,random 16-bit}, packets up to 20000 bytes, '
+         'acknowledgement games. Oracle: every data answer carries <= F_current bytes after the 2-byte header (100 before any accepted size); '
+         'sizes < 2 are answered BADFRAG; per packet fragment numbers are 0,1,2,.. each increment preceded by a matching acknowledgement; the '
+         'last-fragment flag is set exactly on the fragment that completes the compressed packet the server read from its tun device. '
+         'non-trivial iff a packet needed >= 3 fragments and a size was set by an accepted N request',
+    engine_text='rapidcheck over choice tapes; simnet hosting the real iodined; scripted sessions (refproto); ASan+UBSan',
+    bounds='1 session, <= 60 actions, packets <= 20000 bytes; numbering judged for packets that fit 16 fragments',
+    trusted_base=TB_SIM, assumptions=AS_SIM + ['zlib level-9 output is deterministic (the harness recomputes the compressed form of every packet the server read)'],
+)
+PROPS['C14'] = dict(
+    bin='c14', sources=['props/c14.cc'] + SIMSRC2, unit_objs=UNIT, images=IMGS, engine='rc',
+    quick=dict(workers=8, cases=4000, budget=40, min_nontrivial=100),
+    thorough=dict(workers=16, cases=80000, budget=1200, min_nontrivial=5000),
+    rule=SES_RULE + 'C14 mix: 1..3 sessions, duplicates of pending and answered queries with new ids / from other relay addresses. Oracle '
+         '(credit accounting): every query the server read that parses (strict RFC 1035 parser) adds one credit (source, id, name, type); every '
+         'answer the server emits must consume one unanswered matching credit; after every server step at most two distinct ping/data '
+         'questions per session are unanswered. non-trivial iff a remembered duplicate of a pending query was answered together with the '
+         'original, or a pending query was re-delivered while two queries were held',
+    engine_text='rapidcheck over choice tapes; simnet hosting the real iodined; scripted sessions (refproto); wire monitor',
+    bounds='<= 3 sessions, <= 60 actions', trusted_base=TB_SIM, assumptions=AS_SIM + ['without -b (forwarded replies are C20)'],
+)
+PROPS['C16'] = dict(
+    bin='c16', sources=['props/c16.cc'] + SIMSRC2, unit_objs=UNIT, images=IMGS, engine='rc',
+    quick=dict(workers=8, cases=4000, budget=40, min_nontrivial=100),
+    thorough=dict(workers=16, cases=80000, budget=1200, min_nontrivial=5000),
+    rule=SES_RULE + 'C16 mix: re-deliveries chosen from the windows the property names (4 most recently answered; last 15 data / 30 ping; '
+         'pending), 1..3 times, same or new id, same or other relay address, optional case change (Base32 names only). Oracles: upstream packets '
+         'completed by the session are written to the server tun exactly once and in order and nothing else is written; the downstream stream '
+         '(answers to original queries) starts every packet at fragment 0, continues contiguously, advances only after an original query '
+         'acknowledged the current fragment after it was first sent, never rewinds; answers to re-deliveries never carry data not yet sent '
+         'to an original; an identical repeat of one of the 4 most recently answered queries gets the same payload. non-trivial iff the case has '
+         'a repeat in the cache window, one in the qmem window and one of a pending or last-fragment query',
+    engine_text='rapidcheck over choice tapes; simnet hosting the real iodined; scripted session (refproto)',
+    bounds='1 session, <= 90 actions', trusted_base=TB_SIM,
+    assumptions=AS_SIM + ['window sizes are reduced by the number of case-changed re-deliveries so far (each may legitimately be remembered as a new query)'],
+)
+
+ADV_RULE = ('case = real iodined (password 1..32 bytes incl. bytes >= 0x80, netmask /24../30 so that slots run out, source checking on or off, '
+            'query type) + 2..5 source addresses (IPv4/IPv6) + a history of <= 80 steps: V (good/bad version), L with userid in/out of range and a '
+            'hash that answers the current challenge / an earlier challenge of the slot / another slot\'s challenge / challenge+-1 / one bit '
+            'flipped / random / too short, I, S, O, N, R, P, one-fragment data packets to the server or to another session, raw-mode login / '
+            'data / ping frames, each optionally mutated (upper-case command, truncated, non-Base32 userid character), honest sessions '
+            '(refproto) starting and sending packets in between, time steps 0.1 s .. 130 s. ')
+PROPS['C03'] = dict(
+    bin='c03', sources=['props/c03.cc'] + SIMSRC2, unit_objs=UNIT, images=IMGS, engine='rc',
+    quick=dict(workers=8, cases=6000, budget=40, min_nontrivial=100),
+    thorough=dict(workers=16, cases=150000, budget=1200, min_nontrivial=5000),
+    rule=ADV_RULE + 'Oracle: the monitor learns (slot, challenge) from every VACK on the wire; a slot is logged in exactly from the moment a '
+         'login carrying MD5(pad32(password) xor challenge) (independent MD5) for its current challenge is read by the server until the slot is '
+         're-issued. Every tun write, every forwarded packet (bytes of an upstream packet showing up downstream or in a raw data frame), every '
+         'address disclosure, accepted S/O/N request and raw login reply must be on behalf of a logged-in slot (raw login additionally needs the '
+         'response to challenge+1). non-trivial iff >= 1 login succeeded, >= 1 request was refused and >= 1 attempt used a replayed or wrong-slot hash',
+    engine_text='rapidcheck over choice tapes; simnet hosting the real iodined; adversarial scripted sources (refproto); wire-level monitor',
+    bounds='<= 5 sources, <= 80 steps, <= 16 slots', trusted_base=TB_SIM + ['refmd5 self-tested against RFC 1321 vectors'],
+    assumptions=AS_SIM + ['MD5 collisions ignored'],
+)
